@@ -32,6 +32,22 @@ TABLE = {
              checks=['C14']),
  'C17': dict(property='C17', breaks='de-chunking for HTTP/2 and HTTP/3 clients reads 2 bytes of chunk suffix even when one is already buffered',
              needs='HTTP/2 or HTTP/3 client, chunked origin response cut exactly between the CR and LF closing a data chunk, with at least one more byte in the piece that starts with the LF', checks=['C17']),
+ 'C09': dict(property='C09', breaks='v4 responded_echo_request parses the quoted echo without the lower-bound length check: panic in the ICMP listener task',
+             needs='an ICMPv4 error whose quoted IPv4 header carries options (IHL >= 6) and whose quote ends 1-7 bytes after that header with first byte 8', checks=['C09', 'C11']),
+ 'C12': dict(property='C12', breaks='early give-up guard looks at byte 5 with only 5 bytes buffered: a complete ClientHello is reported as having no client random',
+             needs='a read that returns exactly the 5-byte record header and nothing else (first flight cut at offset 5 with a delay, or byte-at-a-time with delays)', checks=['C12']),
+ 'C13': dict(property='C13', breaks='the registry authenticator encodes the configured pair with the URL-safe base64 alphabet: pairs whose standard base64 contains + or / are rejected (407) although configured',
+             needs='a user:password whose standard base64 contains + or / (e.g. ~ > ? at byte offset 2 mod 3, most non-ASCII)', checks=['C13', 'C01']),
+ 'C15': dict(property='C15', breaks='a selected authentication method the endpoint did not offer is treated as success (username/password sent into an extended-auth dialogue and vice versa)',
+             needs='credentials present and the server selecting exactly the other authenticating method byte (0x80 when 0x02 was offered, or 0x02 when 0x80 was offered)', checks=['C15']),
+ 'C16': dict(property='C16', breaks='inbound_traffic_bytes counts UDP datagrams the forwarder dropped (send failed)',
+             needs='a _udp2 flow whose send on the connected socket fails (second datagram to a closed port: ECONNREFUSED) while the flow stays alive', checks=['C16']),
+ 'C18': dict(property='C18', breaks='upload bound checked in whole MiB (integer division): Content-Length from 120 MiB + 1 to 121 MiB - 1 answered 200 instead of 400',
+             needs='an upload whose Content-Length lies in (120 MiB, 121 MiB)', checks=['C18']),
+ 'C19': dict(property='C19', breaks='the ping handler drops its completion guard at once (`let (.., _) =`): completion() no longer waits for ping sessions',
+             needs='a ping session still winding down when completion() is awaited, and an observer comparing "completion returned" with "handler finished"', checks=['C19']),
+ 'C20': dict(property='C20', breaks='the auth-info error text quotes the "scheme" of a non-Basic Proxy-Authorization value: for a value without a space that is the whole token',
+             needs='a tunnel request whose Proxy-Authorization value has no space before the secret (bare base64 token, `Basic:tok`, `Basic<TAB>tok`); logged at debug by tunnel.rs', checks=['C20']),
 }
 def sigs(name, check, tier='quick'):
     p = f'{V}/.work/seed-{name}-{check}-{tier}.out'
